@@ -50,6 +50,10 @@ pub struct Net {
     pub receive_errors: Vec<String>,
     pub readonly_doc_changed: Option<String>,
     pub readonly_receives: u64,
+    /// quiescence schedule: false = alternate (generate, deliver at once), true = crossing (both ends
+    /// of a link generate before either message is delivered)
+    pub crossing: bool,
+    pub crash_restores: u64,
 }
 
 pub fn ends(l: &Link, from: usize) -> usize {
@@ -90,6 +94,8 @@ impl Net {
             receive_errors: vec![],
             readonly_doc_changed: None,
             readonly_receives: 0,
+            crossing: false,
+            crash_restores: 0,
         }
     }
 
@@ -162,13 +168,17 @@ impl Net {
         let e = ends(l, from);
         let to = if e == 0 { l.b } else { l.a };
         let Some(bytes) = l.q[e].pop_front() else { return false };
-        let m = match sync::Message::decode(&bytes) {
+        let mut m = match sync::Message::decode(&bytes) {
             Ok(m) => m,
             Err(err) => {
                 self.receive_errors.push(format!("queued message does not decode: {err}"));
                 return true;
             }
         };
+        if l.old_peer[1 - e] {
+            // an implementation that predates the flags section does not see it
+            m.flags = None;
+        }
         let ro = l.ro[1 - e];
         let before = if ro { Some((self.docs[to].save(), self.docs[to].get_heads())) } else { None };
         let r = self.docs[to].sync().receive_sync_message(&mut l.st[1 - e], m);
@@ -269,6 +279,25 @@ impl Net {
         self.note(s);
     }
 
+    /// Crash of peer `p`: its process dies, every connection drops with whatever was in flight, and it
+    /// restarts from an older copy of its document (`older`) under a new actor id, while the sync
+    /// states — its own and its peers' — are the persisted ones (State::encode → decode), i.e. they may
+    /// name heads the restarted document no longer has.
+    pub fn crash_restore(&mut self, p: usize, older: AutoCommit) -> Result<(), String> {
+        let mine: Vec<usize> = (0..self.links.len()).filter(|li| self.links[*li].a == p || self.links[*li].b == p).collect();
+        for li in &mine {
+            self.drop_link(*li);
+        }
+        self.docs[p] = older;
+        self.crash_restores += 1;
+        let s = format!("crash P{p}: restarted from an older document copy");
+        self.note(s);
+        for li in mine {
+            self.reconnect(li, [true, true])?;
+        }
+        Ok(())
+    }
+
     pub fn total_changes(&mut self) -> usize {
         let mut all: BTreeSet<ChangeHash> = BTreeSet::new();
         for d in self.docs.iter_mut() {
@@ -297,13 +326,27 @@ impl Net {
                 while self.deliver(li, b) {
                     any = true;
                 }
-                if self.gen(li, a) {
-                    any = true;
-                    self.deliver(li, a);
-                }
-                if self.gen(li, b) {
-                    any = true;
-                    self.deliver(li, b);
+                if self.crossing {
+                    // messages cross on the wire: both ends generate before either receives
+                    let ga = self.gen(li, a);
+                    let gb = self.gen(li, b);
+                    if ga {
+                        any = true;
+                        self.deliver(li, a);
+                    }
+                    if gb {
+                        any = true;
+                        self.deliver(li, b);
+                    }
+                } else {
+                    if self.gen(li, a) {
+                        any = true;
+                        self.deliver(li, a);
+                    }
+                    if self.gen(li, b) {
+                        any = true;
+                        self.deliver(li, b);
+                    }
                 }
             }
             if !any {
